@@ -29,6 +29,7 @@ fn main() {
         "C09" => props::c09::run(tier),
         "C10" => props::c10::run(tier),
         "C11" => props::c11::run(tier),
+        "C13" => props::c13::run(tier),
         "C14" => props::c14::run(tier),
         "C15" => props::c15::run(tier),
         "C17" => props::c17::run(tier),
